@@ -131,4 +131,45 @@ theorem hex_roundtrip (bs : Bytes) (max : Nat) (hwf : Bytes.wf bs) (hlen : bs.le
 example : Conv.hex2bin (Conv.bin2hex [0, 255, 0x1f, 0xa0]) 4 = [0, 255, 0x1f, 0xa0] :=
   hex_roundtrip _ 4 (by intro b hb; simp at hb; omega) (by decide) (by decide)
 
+/-! ## key comparators — byte-string keys
+
+`Cmp.cmpK compound a b` runs `_cmp_keys` in plain mode on the effective key `a = (body, compound part)`
+as stored in a node (`vnum(compound) ++ body` in compound mode) against the lookup key `b`. -/
+
+/-- antisymmetry, both layouts: swapping stored and lookup key flips the sign -/
+theorem plain_antisymm (c : Bool) (a b : Bytes × Nat) :
+    sgn (Cmp.cmpK c a b) = - sgn (Cmp.cmpK c b a) := Cmp.cmpK_antisymm c a b
+
+/-- non-compound byte keys compare equal only when identical (the compound part is not part of
+    the key in this layout). No bound on length or byte values is needed. -/
+theorem plain_eq_iff (a b : Bytes × Nat) : Cmp.cmpK false a b = 0 ↔ a.1 = b.1 := by
+  rw [Cmp.cmpK_false]
+  exact ⟨fun h => (Cmp.tieBreak_eq_zero h).symm, fun h => by rw [h]; exact Cmp.tieBreak_self _⟩
+
+/-- compound byte keys compare equal only when body AND compound part are identical; the compound
+    part is read back from its vnum encoding (`Vnum.decAux_enc`), for every natural number, hence
+    for all of `[0, 2^63)`. -/
+theorem plain_compound_eq_iff (a b : Bytes × Nat) : Cmp.cmpK true a b = 0 ↔ a = b :=
+  Cmp.cmpK_true_eq_zero a b
+
+/-- transitivity, both layouts -/
+theorem plain_trans (c : Bool) (a b d : Bytes × Nat) (h1 : Cmp.cmpK c a b > 0) (h2 : Cmp.cmpK c b d > 0) :
+    Cmp.cmpK c a d > 0 := Cmp.cmpK_trans c a b d h1 h2
+
+/-- what the order is: bytewise lexicographic with the length as tie-break (`Cmp.tieBreak` =
+    `memcmp` on the common prefix, then length difference), then — compound layout only — the
+    compound part in numeric order. -/
+theorem plain_order (a b : Bytes × Nat) :
+    Cmp.cmpK false a b = Cmp.tieBreak b.1 a.1 ∧
+    Cmp.cmpK true a b = (if Cmp.tieBreak b.1 a.1 = 0 then
+        (if b.2 > a.2 then 1 else if b.2 < a.2 then -1 else 0) else Cmp.tieBreak b.1 a.1) := by
+  refine ⟨Cmp.cmpK_false a b, ?_⟩
+  rw [Cmp.cmpK_true, Cmp.cmp3_nat]
+
+/-- non-vacuity: the hypotheses of `plain_trans` are satisfiable in both layouts; in the compound
+    layout a tie on the body is broken by the compound part -/
+example : Cmp.cmpK false ([1, 2], 0) ([1, 2, 0], 0) > 0 ∧ Cmp.cmpK false ([1, 2, 0], 0) ([1, 3], 0) > 0 ∧
+    Cmp.cmpK true ([7], 200) ([7], 300) > 0 ∧ Cmp.cmpK true ([7], 300) ([8], 0) > 0 := by
+  simp [Cmp.cmpK_false, Cmp.cmpK_true, Cmp.tieBreak_cons_cons, Cmp.cmp3]
+
 end IwModel.C19
